@@ -522,3 +522,18 @@ package dataflow
 //@   property C13
 //@   assumed
 //@   modifies nothing
+
+// ---------------------------------------------------------------------------
+// C01 / C08: a mark on a value is propagated to the instructions that use the value:
+// the address a pointer-like value is stored to, the result of a load / receive
+// through it, the channel it is sent on, the map it is put into, the iterator of a
+// map range.
+//@ func IntraAnalysisState.propagateToReferrer
+//@   property C01 C08
+//@   requires state != nil && ref != nil && ref(ref) != 0
+//@   ensures store: istype(ref, *ssa.Store) && ref.(*ssa.Store).Val == v && lang.IsNillableType(ref.(*ssa.Store).Val.Type()) ==> called(markValue, state, i, ref.(*ssa.Store).Addr, path, mark)
+//@   ensures load: istype(ref, *ssa.UnOp) && ref.(*ssa.UnOp).Op == token.MUL ==> called(markValue, state, i, ref.(*ssa.UnOp), path, mark)
+//@   ensures receive: istype(ref, *ssa.UnOp) && ref.(*ssa.UnOp).Op == token.ARROW ==> called(markValue, state, i, ref.(*ssa.UnOp), path, mark)
+//@   ensures send: istype(ref, *ssa.Send) && ref.(*ssa.Send).X == v && lang.IsNillableType(ref.(*ssa.Send).X.Type()) ==> called(markValue, state, i, ref.(*ssa.Send).Chan, path, mark)
+//@   ensures map_update: istype(ref, *ssa.MapUpdate) && ref.(*ssa.MapUpdate).Value == v && lang.IsNillableType(ref.(*ssa.MapUpdate).Value.Type()) ==> called(markValue, state, i, ref.(*ssa.MapUpdate).Map, path, mark)
+//@   ensures next: istype(ref, *ssa.Next) && !ref.(*ssa.Next).IsString ==> called(markValue, state, i, ref.(*ssa.Next).Iter, path, mark)
